@@ -143,6 +143,70 @@ theorem decMachine_wf {bs r : Bytes} {m : Machine} (h : decMachine bs = some (m,
   simp only [WFm, Bool.and_eq_true, decide_eq_true_eq, List.all_eq_true]
   exact ⟨⟨⟨decVarint_lt (by assumption), decVarint_lt (by assumption)⟩, this.1⟩, this.2⟩
 
+/-! ### the decoder never builds more states than it was given bytes -/
+
+theorem readLE_len {k : Nat} {bs r : Bytes} {v : Nat} (h : readLE k bs = some (v, r)) : r.length + k = bs.length := by
+  induction k generalizing bs v r with
+  | zero => simp [readLE] at h; simp [h.2]
+  | succ k ih =>
+    cases bs with
+    | nil => simp [readLE] at h
+    | cons b bs =>
+      simp only [readLE] at h
+      split at h
+      · simp at h
+      · rename_i v' r' hv
+        simp at h
+        have := ih hv
+        simp only [List.length_cons]
+        rw [← h.2]; omega
+
+theorem decVarint_len {bs r : Bytes} {v : Nat} (h : decVarint bs = some (v, r)) : r.length ≤ bs.length := by
+  cases bs with
+  | nil => simp [decVarint] at h
+  | cons b bs =>
+    simp only [decVarint] at h
+    repeat' split at h
+    all_goals (try simp at h)
+    · simp only [List.length_cons]; rw [← h.2]; omega
+    all_goals (have := readLE_len h; simp only [List.length_cons]; omega)
+
+theorem decF64_len {bs r : Bytes} {v : F64} (h : decF64 bs = some (v, r)) : r.length ≤ bs.length := by
+  simp only [decF64] at h
+  split at h
+  · rename_i hx; simp at h; have := readLE_len hx; rw [← h.2]; omega
+  · simp at h
+
+theorem decMachine_states_le {bs r : Bytes} {m : Machine} (h : decMachine bs = some (m, r)) :
+    m.states.length ≤ bs.length := by
+  simp only [decMachine] at h
+  repeat' split at h
+  all_goals (try simp at h)
+  rename_i _ _ r1 h1 _ _ r2 h2 _ _ r3 h3 _ _ r4 h4 _ sts r5 h5
+  rw [← h.1]
+  simp only
+  have l1 := decVarint_len h1
+  have l2 := decF64_len h2
+  have l3 := decVarint_len h3
+  have l4 := decF64_len h4
+  simp only [decVec] at h5
+  split at h5
+  · simp at h5
+  · rename_i n r' hn
+    split at h5
+    · simp at h5
+    · rename_i hle
+      have := decN_length h5
+      have := decVarint_len hn
+      omega
+
+theorem decodeMachine_states_le {bs : Bytes} {m : Machine} (h : decodeMachine bs = some m) :
+    m.states.length ≤ bs.length := by
+  simp only [decodeMachine] at h
+  split at h
+  · rename_i hm; simp at h; subst h; exact decMachine_states_le hm
+  · simp at h
+
 theorem decodeMachine_wf {bs : Bytes} {m : Machine} (h : decodeMachine bs = some m) : WFm m = true := by
   simp only [decodeMachine] at h
   split at h
